@@ -68,7 +68,7 @@ class VProc:
         if not spec.get("stdout_open", True) and not spec.get("stdout_held"):
             self.eof.set()         # the child closed its stdout and nobody else has it: EOF has been seen long ago
         if spec.get("exited"):
-            self._die(0)
+            self._die(spec.get("status", 0))
 
     def _die(self, code):
         if self.returncode is None:
@@ -88,7 +88,7 @@ class VProc:
     def terminate(self):
         self.log.append([self.loop.ticks, "term"])
         if self.returncode is None:
-            self._later(self.spec.get("term_delay"), -15)
+            self._later(self.spec.get("term_delay"), self.spec.get("status", -15))   # a handler may exit with any status
 
     def kill(self):
         self.log.append([self.loop.ticks, "kill"])
@@ -134,7 +134,7 @@ def run_case(case):
         log = []
         proc = holder["proc"] = VProc(loop, spec, log)
         if spec.get("self_exit") is not None and not spec.get("exited"):
-            loop.at(b + ticks(spec["self_exit"]), lambda: proc._die(0))
+            loop.at(b + ticks(spec["self_exit"]), lambda: proc._die(spec.get("status", 0)))
         params = StdioParameters(command="scripted", args=[])
 
         async def body():
